@@ -465,7 +465,7 @@ package gabi
 //@   modifies nothing
 
 //@ # ---- prover side: the commitments a builder contributes to the challenge (C04, C02) ----
-//@ pred wfbuilderD(d) := d != nil && wfpk(d.pk) && d.randomizedSignature != nil && d.randomizedSignature.A != nil && d.eCommit != nil && d.vCommit != nil && d.attrRandomizers != nil && (d.proofPcomm != nil ==> d.proofPcomm.Pcommit != nil) && (forall k in 0..len(d.undisclosedAttributes) :: 0 <= d.undisclosedAttributes[k] && d.undisclosedAttributes[k] < len(d.pk.R) && (d.undisclosedAttributes[k] != 0 ==> d.attrRandomizers[d.undisclosedAttributes[k]] != nil))
+//@ pred wfbuilderD(d) := d != nil && wfpk(d.pk) && d.randomizedSignature != nil && d.randomizedSignature.A != nil && d.eCommit != nil && d.vCommit != nil && d.attrRandomizers != nil && (forall k in 0..len(d.undisclosedAttributes) :: 0 <= d.undisclosedAttributes[k] && d.undisclosedAttributes[k] < len(d.pk.R) && (d.undisclosedAttributes[k] != 0 ==> d.attrRandomizers[d.undisclosedAttributes[k]] != nil))
 //@ # Z-tilde = [Pcommit *] A^e~ * S^v~ * prod_{i hidden} R_i^{a~_i} mod N, reduced at every step, in the order of the list of hidden indices
 //@ fold ztilde(d, k) := powsigned(val(d.pk.R[d.undisclosedAttributes[k]]), val(d.attrRandomizers[d.undisclosedAttributes[k]]), val(d.pk.N)) op mulmod val(d.pk.N) from rem(prod(prod(ite(d.proofPcomm != nil, val(d.proofPcomm.Pcommit), 1), powsigned(val(d.randomizedSignature.A), val(d.eCommit), val(d.pk.N))), powsigned(val(d.pk.S), val(d.vCommit), val(d.pk.N))), val(d.pk.N))
 //@ func (*DisclosureProofBuilder).Commit
@@ -486,26 +486,29 @@ package gabi
 //@   property C04
 //@   safety
 //@   requires ic != nil && wfpk(ic.Pk) && ic.Signature != nil && ic.Signature.A != nil && ic.Signature.E != nil && ic.Signature.V != nil && rangeStatements == nil && !nonrev
-//@   requires len(ic.Attributes) <= 1048576 && forall k in 0..len(disclosedAttributes) :: 0 <= disclosedAttributes[k] && disclosedAttributes[k] < len(ic.Attributes)
+//@   requires len(ic.Attributes) <= 1048576
+//@   ensures[C04] request: err == nil ==> forall k in 0..len(disclosedAttributes) :: 0 < disclosedAttributes[k] && disclosedAttributes[k] < len(ic.Attributes)
 //@   restricted builders without range statements and without a non-revocation part
 //@   ensures builder: err == nil ==> result0 != nil && fresh(result0) && result0.pk == ic.Pk && result0.attributes == ic.Attributes && result0.disclosedAttributes == disclosedAttributes && result0.rpStructures == nil && result0.nonrevBuilder == nil && result0.randomizedSignature != nil && result0.randomizedSignature.A != nil && result0.randomizedSignature.E != nil && result0.randomizedSignature.V != nil && result0.eCommit != nil && result0.vCommit != nil && result0.attrRandomizers != nil
 //@   ensures[C04] hidden: err == nil ==> forall j in 0..len(result0.undisclosedAttributes) :: 0 <= result0.undisclosedAttributes[j] && result0.undisclosedAttributes[j] < len(ic.Attributes) && (forall k in 0..len(disclosedAttributes) :: disclosedAttributes[k] != result0.undisclosedAttributes[j]) && result0.attrRandomizers[result0.undisclosedAttributes[j]] != nil && fresh(result0.attrRandomizers[result0.undisclosedAttributes[j]])
 //@   ensures[C04] complete: err == nil ==> forall idx in 0..len(ic.Attributes) :: (forall k in 0..len(disclosedAttributes) :: disclosedAttributes[k] != idx) ==> exists j in 0..len(result0.undisclosedAttributes) :: result0.undisclosedAttributes[j] == idx
 //@   ensures fail: err != nil ==> result0 == nil
 //@   modifies nothing
-//@   loop 0 invariant 0 <= $i && $i <= len(d.undisclosedAttributes) && d != nil && fresh(d) && d.attrRandomizers != nil && fresh(d.attrRandomizers) && forall j in 0..$i :: d.attrRandomizers[d.undisclosedAttributes[j]] != nil && fresh(d.attrRandomizers[d.undisclosedAttributes[j]])
-//@   loop 0 modifies mapof(d.attrRandomizers)
+//@   loop 0 invariant 0 <= $i && $i <= len(disclosedAttributes) && forall k in 0..$i :: 0 < disclosedAttributes[k] && disclosedAttributes[k] < len(ic.Attributes)
+//@   loop 3 invariant 0 <= $i && $i <= len(d.undisclosedAttributes) && d != nil && fresh(d) && d.attrRandomizers != nil && fresh(d.attrRandomizers) && forall j in 0..$i :: d.attrRandomizers[d.undisclosedAttributes[j]] != nil && fresh(d.attrRandomizers[d.undisclosedAttributes[j]])
+//@   loop 3 modifies mapof(d.attrRandomizers)
 
 //@ # U-tilde = [Pcommit *] S^v'~ * R_0^s~ * prod_{i blind} R_i^{m~_i} mod N (issuance commitment of the user), reduced at every step
 //@ mapfold utilde(b, k) := pow(val(b.pk.R[k]), val(b.mUserCommit[k]), val(b.pk.N)) op mulmod val(b.pk.N) from rem(prod(prod(ite(b.proofPcomm != nil, val(b.proofPcomm.Pcommit), 1), pow(val(b.pk.S), val(b.vPrimeCommit), val(b.pk.N))), pow(val(b.pk.R[0]), val(b.skRandomizer), val(b.pk.N))), val(b.pk.N))
 //@ func (*CredentialBuilder).Commit
 //@   property C06 C02
 //@   safety
-//@   requires b != nil && wfpk(b.pk) && b.vPrimeCommit != nil && val(b.vPrimeCommit) >= 0 && randomizers != nil && randomizers["secretkey"] != nil && val(randomizers["secretkey"]) >= 0 && (b.proofPcomm != nil ==> b.proofPcomm.Pcommit != nil)
+//@   requires b != nil && wfpk(b.pk) && b.vPrimeCommit != nil && val(b.vPrimeCommit) >= 0 && randomizers != nil && randomizers["secretkey"] != nil && val(randomizers["secretkey"]) >= 0
 //@   requires forall k in dom(b.mUser) :: 0 <= k && k < len(b.pk.R) && b.mUserCommit[k] != nil && val(b.mUserCommit[k]) >= 0
 //@   ensures secret: b.skRandomizer == randomizers["secretkey"]
-//@   ensures shape: err == nil && len(result0) == 2 && result0[0] == b.u && result0[1] != nil && fresh(result0[1])
-//@   ensures[C06] utilde: val(result0[1]) == utilde(b, b.mUser)
+//@   ensures shape: err == nil ==> len(result0) == 2 && result0[0] == b.u && result0[1] != nil && fresh(result0[1])
+//@   ensures[C06] utilde: err == nil ==> val(result0[1]) == utilde(b, b.mUser)
+//@   ensures refused: err == nil <==> (b.proofPcomm == nil || b.proofPcomm.Pcommit != nil)
 //@   modifies b.skRandomizer
 //@   loop 0 invariant uCommit != nil && fresh(uCommit) && val(uCommit) == utilde(b) && b.skRandomizer == randomizers["secretkey"]
 
@@ -573,6 +576,14 @@ package gabi
 //@   ensures ok: err == nil ==> result0 != nil && result0.Signature != nil && result0.Signature.A != nil && result0.Signature.E != nil && result0.Signature.V != nil && isprime(val(result0.Signature.E)) && result0.Proof != nil && result0.Proof.C != nil && result0.Proof.EResponse != nil && result0.NonRevocationWitness == witness
 //@   ensures fail: err != nil ==> result0 == nil
 //@   modifies nothing
+
+//@ # the holder merges what the keyshare server sent only if it is complete and, in the current protocol, answers the holder's own challenge
+//@ func (ProofBuilderList).BuildDistributedProofList
+//@   property C14
+//@   nopanic off
+//@   requires challenge != nil
+//@   ensures[C14] samechallenge: err == nil ==> forall i in 0..len(proofPs) :: old(proofPs[i] != nil ==> proofPs[i].SResponse != nil && (proofPs[i].P == nil ==> proofPs[i].C != nil && val(proofPs[i].C) == val(challenge)))
+//@   loop 0 invariant 0 <= $i && $i <= len(proofPs) && forall j in 0..$i :: proofPs[j] != nil ==> proofPs[j].SResponse != nil && (proofPs[j].P == nil ==> proofPs[j].C != nil && val(proofPs[j].C) == val(challenge))
 
 //@ # ---- keyshare server, first message (C14): one randomizer for all keys, short enough for the smallest key ----
 //@ func NewKeyshareCommitments
